@@ -29,6 +29,9 @@ def make_packages(seed, npk, per_file, files_per_pkg=1, malformed_frac=0.0, opts
     shp = declgen.shape_decls(8500)
     for i in range(0, len(shp), 10):
         pkgs.append(dict(name="sh%d" % (i // 10), files=[dict(fname="a.go", decls=shp[i:i + 10])], kind="valid"))
+    zf = declgen.sync_fanin_leaves(9500)
+    for i in range(0, len(zf), 8):
+        pkgs.append(dict(name="yz%d" % (i // 8), files=[dict(fname="a.go", decls=zf[i:i + 8])], kind="valid"))
     cm = declgen.ctx_mid_decls(8000)
     pkgs.append(dict(name="cm0", files=[dict(fname="a.go", decls=cm)], kind="valid"))
     # systematic stream (C05): all async masks x all discovery orders of 2..3 parameterless providers
